@@ -47,7 +47,7 @@ THEOREMS = [
         "wtcard_type_dispatch "
         "format_float_accuracy format_bound_pieces mixed_branch_picks mixed_branch_reads_as_sci "
         "fixed_branch_best_precision last_branches_best_precision sci_best_precision sci_slack_attained "
-        "unnormalised_mantissa_is_closer"
+        "unnormalised_mantissa_is_closer mixed_branch_picks_neg kept_comments_complete rdcards_foreign_block"
     ).split()
 ]
 TRUSTED = [
@@ -109,7 +109,8 @@ PARTIAL = (
     "grammar, read back as a real, and |field - x| <= formatBound, the explicit piecewise bound (fixed rows "
     "1/2 10^-p, scientific (1/2 10^-P + 1/2 10^-q) 10^E, mixed: the bound of the alternative emitted, final "
     "integers 1/2; format_bound_pieces); mixed_branch_picks (positive chain: the fixed alternative is emitted iff "
-    "N > 0, it fits and both fields read as the same double) and mixed_branch_reads_as_sci (whatever is emitted "
+    "N > 0, it fits and both fields read as the same double), mixed_branch_picks_neg (negative chain, exponents "
+    "not ending in 0) and mixed_branch_reads_as_sci (whatever is emitted "
     "reads back as the same number as the scientific field); best precision per branch: "
     "fixed_branch_best_precision and last_branches_best_precision (no string of the grammar of at most W "
     "characters, either sign, normalised or not, is closer: slack 0), sci_best_precision (slack 10^(E-q) against "
@@ -121,16 +122,19 @@ PARTIAL = (
     "texts is read block by block), rdcards_multi_files, written_cards_are_blocks, rdcards_assembled, "
     "rdcards_general_is_rdcards, array_shape (rows x longest card, padded with blank), dict_keys_and_last, "
     "expandtabs_cells / tab_line_reads_as_fixed (tab stops at 8), fsearch_first_line, wtcard_type_dispatch.  "
-    "Still partial: (1) the choice of the NEGATIVE mixed branch is not characterised (its text, width, read-back "
-    "and the bound of each alternative are proved; which one is emitted is tied by the exact correspondence) - the "
-    "code's field.strip(' 0-') also eats the last zero of a two-digit exponent (-1.5-10), which the proof of the "
-    "positive case does not meet; (2) best precision is per branch and is not re-assembled over the dispatch; for "
-    "the fixed alternative of a mixed branch it is only known that it reads back as the scientific field does; "
+    "Still partial: (1) the choice of the NEGATIVE mixed branch is characterised (mixed_branch_picks_neg) only "
+    "for printed exponents whose last digit is not 0: the code's field.strip(' 0-') also eats the last zero of "
+    "an exponent like -10 and then compares with another number, so for 1e-10 <= |x| < 1e-9 in format_float16 "
+    "which alternative is emitted is tied by the exact correspondence only (text, width, read-back and the bound "
+    "of each alternative are proved there too); (2) best precision is per branch and is not re-assembled over "
+    "the dispatch; for the fixed alternative of a mixed branch it is only known that it reads back as the "
+    "scientific field does (mixed_branch_reads_as_sci, positive chain); "
     "(3) a comma-form writer does not exist in pyyeti: card_roundtrip_comma is about the specification text "
     "commaText; (4) in rdcards_assembled the foreign blocks between the cards are assumed to contribute no card "
-    "of the name (decided for concrete lines, tied by correspondence in general); keep_comments=True (comments "
-    "flushed in front of the next matching card) and regex matching are modelled and tied but carry no theorem "
-    "beyond rdcards_multi's 'any matcher'; (5) numpy.float32 arguments equal to the float32 rounding of a branch "
+    "of the name (decided for concrete lines, tied by correspondence in general); for keep_comments=True "
+    "kept_comments_complete proves that every comment line is kept once and in order, the exact place of a "
+    "comment among the cards (in front of the next matching card) is modelled and tied only; regex matching "
+    "carries no theorem beyond rdcards_multi's 'any matcher'; (5) numpy.float32 arguments equal to the float32 rounding of a branch "
     "literal are outside the model (NumPy compares in float32 there); `rowsep` does not exist in this code base; "
     "card_line_roundtrip_partial is kept for the record (superseded by card_roundtrip_small)"
 )
@@ -140,8 +144,8 @@ MANIFEST = {
                   "bound), best precision per branch with the sharp slack and the counterexample for un-normalised "
                   "mantissas, the positive mixed branch's choice; cards in 8/16/comma forms with any number of lines; "
                   "the generic reader with all options on multi-card files (block-by-block reading, array shapes, "
-                  "dictionary keys, tabs, fsearch).  Tied by exact correspondence only: the choice of the negative "
-                  "mixed branch, kept comments, regular-expression names (matcher verdicts from Python's re), NumPy's "
+                  "dictionary keys, kept comments, tabs, fsearch).  Tied by exact correspondence only: the choice of the "
+                  "negative mixed branch in the decade 1e-10..1e-9 of format_float16, the place of kept comments, regular-expression names (matcher verdicts from Python's re), NumPy's "
                   "dtype conversions, numpy.float32 arguments",
     "technique": "Lean 4 model + ast translator (NasFloatTables) + differential correspondence",
 }
@@ -1423,6 +1427,7 @@ FAM_TABS = "rdcards-tab-expansion-differs-from-fixed-columns"
 FAM_NPFIELD = "wtcard-numpy-scalar-field-differs-from-python-scalar"
 FAM_NODATA = "rdcards-no-data-return"
 FAM_PREFIX = "rdcards-name-prefix-or-case-not-selected"
+FAM_COMMENTS = "rdcards-keep-comments"
 
 
 _ORACLE_STATS = {}
@@ -1487,6 +1492,21 @@ def _file_failures(bulk, parts, name):
         out.append((FAM_MULTI, "reading the file by name differs from the per-card reads in file order", inp,
                     {"read": repr(got)[:600]}, {"per_card": repr(exp)[:600]}))
         return out
+    # keep_comments=True (safe files have their comments between the blocks only): every line that starts with `$`
+    # is kept, once and in order, and the cards are what they are without the comments
+    try:
+        gotc = _rd(bulk, text, name, return_var="list", keep_name=True, keep_comments=True)
+    except Exception as e:  # noqa: BLE001
+        out.append((FAM_COMMENTS, "rdcards(keep_comments=True) raises", inp, repr(e), "cards and comments"))
+        return out
+    wantc = [ln for ln in io.StringIO(text) if ln.startswith("$")]
+    if [it for it in gotc if isinstance(it, str)] != wantc or not (
+            len([it for it in gotc if not isinstance(it, str)]) == len(exp)
+            and all(_same_list(a, b) for a, b in zip([it for it in gotc if not isinstance(it, str)], exp))):
+        out.append((FAM_COMMENTS, "keep_comments=True loses, repeats or reorders a comment line, or changes a card", inp,
+                    {"read": repr(gotc)[:600]}, {"comments": wantc[:20], "cards": repr(exp)[:400]}))
+        return out
+    _stat("files-kept-comments-checked")
     lst = [c[1:] for c in exp]
     if any(len(c) == 0 for c in lst):
         return out  # `val[0]` of a card without fields: outside the quantifier (cards of 1..60 fields)
